@@ -461,12 +461,12 @@ func cmdCheck(args []string) int {
 			undecided = append(undecided, o.Name+": function vacuous")
 			continue
 		}
-		if r.R.Answer != "unsat" && r.R.Answer != "sat" && expected[o.Name] && longRetries < 8 {
+		if r.R.Answer != "unsat" && r.R.Answer != "sat" && expected[o.Name] && longRetries < 4 {
 			// an obligation of the committed baseline did not discharge: retry with a long timeout on all solvers
-			// (at most 8 such retries per run: on an unchanged tree none is needed; a tree where more than 8
+			// (at most 4 such retries per run: on an unchanged tree none is needed; a tree where more than 4
 			// baseline obligations fail is in violation whatever the ninth retry says)
 			longRetries++
-			r2 := solve(o, tmp, 45, seed+17, true, nil)
+			r2 := solve1(o, tmp, 45, seed+17, true, nil) // the plain race only: the first pass already tried the other strategies
 			if os.Getenv("GOVC_DEBUG") != "" {
 				fmt.Printf("DEBUG retry %s answer=%s solver=%s %.2fs %v\n", o.Name, r2.Answer, r2.Solver, r2.Seconds, r2.ByProc)
 			}
